@@ -380,6 +380,30 @@ def check_functionals(label, m, rng, tier, fails):
     intf = np.nonzero(m.f2t[1] != -1)[0]
     fsub = np.sort(rng.choice(nf, max(1, nf // 3), replace=False))
     cases = 0
+    # an integration domain named by SEVERAL, overlapping, tagged sets is the union: every cell / facet counts once
+    if nt > 2:
+        sa, sb = np.arange(0, max(2, 2 * nt // 3)), np.arange(nt // 3, nt)
+        mo = m.with_subdomains({"a": sa, "b": sb})
+        un = np.union1d(sa, sb)
+        q0 = tuple([0] * d)
+        q1 = tuple([1] + [0] * (d - 1))
+        for how, sel in (("list of names", ["a", "b"]), ("tuple of names", ("a", "b")), ("name and index array", ["a", sb])):
+            for q in (q0, q1):
+                got = fem.Functional(wfun(q)).assemble(fem.CellBasis(mo, e, intorder=2 + extra, elements=sel))
+                want = float(sum(ex.cell(int(k), q) for k in un))
+                if not close(got, want, abs(want) + 1):
+                    fails.append(dict(input="%s cells %s (overlapping tagged sets a=%s, b=%s), x^%s" % (label, how, sa.tolist()[:6], sb.tolist()[:6], list(q)),
+                                      observed="UNION: assembled %r, exact integral over the union %r" % (float(got), want)))
+        if kind != "wedge" and len(bnd) > 2:
+            fa, fb_ = bnd[: max(2, 2 * len(bnd) // 3)], bnd[len(bnd) // 3:]
+            mo = m.with_boundaries({"a": fa, "b": fb_})
+            un = np.union1d(fa, fb_)
+            for how, sel in (("list of names", ["a", "b"]), ("name and index array", ["a", fb_])):
+                got = fem.Functional(wfun(q0)).assemble(fem.FacetBasis(mo, e, intorder=2 + extra, facets=sel))
+                want = float(sum(ex.facet(int(f), q0) for f in un))
+                if not close(got, want, abs(want) + 1):
+                    fails.append(dict(input="%s facets %s (overlapping tagged sets)" % (label, how), observed="UNION: assembled facet measure %r, exact measure of the union %r" % (float(got), want)))
+        cases += 1
     for n in range(nmax + 1):
         try:
             cb = fem.CellBasis(m, e, intorder=n + extra)
@@ -527,6 +551,26 @@ def check_invariance(label, m, rng, tier, fails):
             b = fem.Functional(moved).assemble(mk(m2))
             if not close(a, b, abs(a)):
                 fails.append(dict(input="%s rigid motion, %s, x^%s" % (label, nm, list(q)), observed="RIGID: %r before, %r after the motion" % (float(a), float(b))))
+    # the library's own motions applied to a mesh that has ALREADY been used (its mapping is cached): the moved mesh integrates over the moved geometry
+    fem.CellBasis(m, e, intorder=2)
+    if kind != "wedge":
+        fem.FacetBasis(m, e, intorder=2)
+    moves = [("translated", lambda q: q.translated(tuple(c.tolist()))), ("scaled", lambda q: q.scaled(tuple([2., .5, 1.5][:d])))]
+    if d > 1:
+        moves.append(("mirrored", lambda q: q.mirrored(tuple([1.] + [0.] * (d - 1)), tuple([.25] * d))))
+    for mname, mv in moves:
+        try:
+            mm = mv(m)
+        except Exception as exn:
+            fails.append(dict(input="%s %s" % (label, mname), observed="raised %s: %s" % (type(exn).__name__, exn)))
+            continue
+        ex2 = Exact(mm)
+        for q in (tuple([0] * d), tuple([1] + [0] * (d - 1)), tuple([0] * (d - 1) + [2])):
+            cases += 1
+            got = fem.Functional(wfun(q)).assemble(fem.CellBasis(mm, e, intorder=3 + (0 if label.split("~")[0] in AFFINE else 2)))
+            want = float(sum(ex2.cell(k, q) for k in range(mm.t.shape[1])))
+            if not close(got, want, abs(want) + 1):
+                fails.append(dict(input="%s.%s() after the mesh was used, x^%s" % (label, mname, list(q)), observed="MOVED: assembled %r on the moved mesh, exact integral over the moved cells %r" % (float(got), want)))
     # refinement with tags
     if hasattr(m, "refined") and kind != "wedge":
         ms = m.with_subdomains({"part": sub})
